@@ -93,8 +93,9 @@ def _drop_zeros(ctx, rep, cl, body4):
             continue
         arg = r[2][0] if r[2] else None
         ok2 = False
-        if arg is not None and M.is_call(arg) and arg[1][0] == "attr" and arg[1][2] == "sub" and len(arg[2]) == 2:
-            pat_t, (tmpl, src) = arg[1][1], arg[2]
+        nsz = M.norm_sub(arg) if arg is not None else None
+        if nsz is not None and nsz[3] is None:
+            pat_t, tmpl, src = nsz[0], nsz[1], nsz[2]
             pts = ctx.G.types_of(pat_t, f)
             is_dz = pat_t[0] == "attr" and pat_t[2] == "_DROP_ZEROS_PATTERN"
             ok2 = is_dz and tmpl == ("const", r"\1.\2.\3.\4") and src == ("param", f.params[1])
@@ -562,19 +563,18 @@ def c11(ctx, rep):
     for path in A.paths(fas).paths:
         r = path.returned()
         w = where(fas)
-        ok = M.is_call(r) and r[1][0] == "attr" and r[1][2] == "sub" and len(r[2]) == 2
-        if not ok:
+        ns = M.norm_sub(r)
+        if ns is None or ns[3] is not None:
             rep.fail("C11.sub-plumbing", fas.name, "returns %s; expected pattern.sub(callable, line)" % show(r), w, key="C11.sub-plumbing|anonymize_as_numbers")
             continue
-        pat, (repl, line) = r[1][1], r[2]
-        rep.ob("C11.sub-pattern", fas.name, pat == ("call", ("attr", ap, "get_as_number_pattern"), (), ()), "pattern is %s" % show(pat), w)
+        pat, repl, line = ns[0], ns[1], ns[2]
+        rep.ob("C11.sub-pattern", fas.name, pat in (("call", ("attr", ap, "get_as_number_pattern"), (), ()), ("attr", ap, "as_num_regex")), "pattern is %s" % show(pat), w)
         rep.ob("C11.sub-line", fas.name, line == lp, "substitution over %s; expected the whole line" % show(line), w)
         okc = False
         if repl[0] == "lambda":
             mv = ("bound", repl[2][0], repl[1])
-            okc = repl[3] in (("call", ("attr", ap, "anonymize"), (("call", ("attr", mv, "group"), (("const", 0),), ()),), ()),
-                              ("call", ("attr", ap, "anonymize"), (("call", ("attr", mv, "group"), (), ()),), ()),
-                              ("call", ("attr", ap, "anonymize"), (("call", ("attr", mv, "group"), (("const", 1),), ()),), ()))
+            b3 = repl[3]
+            okc = M.is_call(b3) and b3[1] == ("attr", ap, "anonymize") and len(b3[2]) == 1 and not b3[3] and (M.group0(b3[2][0], mv) or b3[2][0] == ("call", ("attr", mv, "group"), (("const", 1),), ()))
         rep.ob("C11.sub-callable", fas.name, okc, "replacement is %s; expected lambda m: anonymizer.anonymize(m.group(0)) — the replacement alone, nothing re-emitted around it" % show(repl), w, key="C11.sub-callable|anonymize_as_numbers")
     fg = cls.methods.get("get_as_number_pattern")
     if fg is not None and found:
